@@ -160,6 +160,161 @@ pub open spec fn ref_index_spec(pass: nat, slice: nat, index: nat, seg: nat, sam
     (ref_start(pass, slice, seg) + map_j1(ref_area_size(pass, slice, index, seg, same), j1)) % (4 * seg) as int
 }
 
+// ------------------------------------------------------------------------------------------------
+// RFC 9106 section 3.4.1: J1 || J2, and section 3.2 steps 5-6 for one lane (p = 1): filling the memory
+// ------------------------------------------------------------------------------------------------
+pub open spec fn zero_block() -> Seq<u64> {
+    Seq::new(128, |k: int| 0u64)
+}
+
+/// Z || LE64(ctr) || ZERO(968) as 128 words, Z = (r, l, sl, m', t, y)
+pub open spec fn addr_input(pass: nat, lane: nat, slice: nat, mprime: nat, t: nat, y: nat, ctr: nat) -> Seq<u64> {
+    Seq::new(
+        128,
+        |k: int|
+            if k == 0 {
+                pass as u64
+            } else if k == 1 {
+                lane as u64
+            } else if k == 2 {
+                slice as u64
+            } else if k == 3 {
+                mprime as u64
+            } else if k == 4 {
+                t as u64
+            } else if k == 5 {
+                y as u64
+            } else if k == 6 {
+                ctr as u64
+            } else {
+                0u64
+            },
+    )
+}
+
+/// the ctr-th 1024-byte address block G(ZERO(1024), G(ZERO(1024), Z || LE64(ctr) || ZERO(968))), ctr = 1, 2, ..
+pub open spec fn addr_block(pass: nat, lane: nat, slice: nat, mprime: nat, t: nat, y: nat, ctr: nat) -> Seq<u64> {
+    g_spec(zero_block(), g_spec(zero_block(), addr_input(pass, lane, slice, mprime, t, y, ctr)))
+}
+
+/// the 8-byte value X = J1 || J2 (J1 = low 32 bits) used for block `index` of the segment (Argon2i addressing)
+pub open spec fn addr_j(pass: nat, lane: nat, slice: nat, mprime: nat, t: nat, y: nat, index: nat) -> u64 {
+    addr_block(pass, lane, slice, mprime, t, y, index / 128 + 1)[(index % 128) as int]
+}
+
+/// Argon2i (y = 1): always data-independent; Argon2id (y = 2): in the first two slices of the first pass
+pub open spec fn data_indep(y: nat, pass: nat, slice: nat) -> bool {
+    y == 1 || (pass == 0 && slice < 2)
+}
+
+/// computation of block j of the lane in pass `pass` (q = 4 * seg blocks, one lane: l = J2 mod 1 = 0):
+/// B[j] = G(B[j-1], B[z])            in the first pass,
+/// B[j] = G(B[j-1], B[z]) xor B[j]   afterwards (version 1.3); B[-1] is B[q-1]
+pub open spec fn argon2_step(mem: Seq<Seq<u64>>, seg: nat, t: nat, y: nat, pass: nat, j: nat) -> Seq<Seq<u64>> {
+    let q = 4 * seg;
+    let slice = j / seg;
+    let index = j % seg;
+    let prev = mem[if j == 0 { q - 1 } else { j - 1 }];
+    let x: u64 = if data_indep(y, pass, slice) { addr_j(pass, 0, slice, q, t, y, index) } else { prev[0] };
+    let j1 = (x as nat) % 0x1_0000_0000;
+    let z = ref_index_spec(pass, slice, index, seg, true, j1);
+    let g = g_spec(prev, mem[z]);
+    mem.update(j as int, if pass == 0 { g } else { xor_seq(g, mem[j as int]) })
+}
+
+/// blocks lo .. hi-1 of the lane, in increasing order
+pub open spec fn argon2_steps(mem: Seq<Seq<u64>>, seg: nat, t: nat, y: nat, pass: nat, lo: nat, hi: nat) -> Seq<Seq<u64>>
+    decreases hi,
+{
+    if hi <= lo { mem } else { argon2_step(argon2_steps(mem, seg, t, y, pass, lo, (hi - 1) as nat), seg, t, y, pass, (hi - 1) as nat) }
+}
+
+/// one pass over the lane; the first pass starts at block 2
+pub open spec fn argon2_pass(mem: Seq<Seq<u64>>, seg: nat, t: nat, y: nat, pass: nat) -> Seq<Seq<u64>> {
+    argon2_steps(mem, seg, t, y, pass, if pass == 0 { 2 } else { 0 }, 4 * seg)
+}
+
+/// the first n passes
+pub open spec fn argon2_passes(mem: Seq<Seq<u64>>, seg: nat, t: nat, y: nat, n: nat) -> Seq<Seq<u64>>
+    decreases n,
+{
+    if n == 0 { mem } else { argon2_pass(argon2_passes(mem, seg, t, y, (n - 1) as nat), seg, t, y, (n - 1) as nat) }
+}
+
+pub proof fn lemma_steps_compose(mem: Seq<Seq<u64>>, seg: nat, t: nat, y: nat, pass: nat, lo: nat, mid: nat, hi: nat)
+    requires
+        lo <= mid <= hi,
+    ensures
+        argon2_steps(argon2_steps(mem, seg, t, y, pass, lo, mid), seg, t, y, pass, mid, hi) == argon2_steps(mem, seg, t, y, pass, lo, hi),
+    decreases hi,
+{
+    if hi > mid {
+        lemma_steps_compose(mem, seg, t, y, pass, lo, mid, (hi - 1) as nat);
+    }
+}
+
+/// index safety (RFC 9106 3.4.2, same lane): the reference block z is inside the lane, is not the previous block, is
+/// not the block being built nor a block of the current segment that has not been built yet in this pass, and in the
+/// first pass it is a block that has already been built
+pub open spec fn ref_safe(pass: nat, slice: nat, index: nat, seg: nat, z: int) -> bool {
+    let cur = slice * seg + index;
+    let prev = if cur == 0 { 4 * seg - 1 } else { cur - 1 };
+    &&& 0 <= z < 4 * seg
+    &&& z != prev
+    &&& !(cur <= z < (slice + 1) * seg)
+    &&& (pass == 0 ==> z < cur)
+}
+
+pub proof fn lemma_map_j1_range(size: int, j1: nat)
+    requires
+        size >= 1,
+        j1 < 0x1_0000_0000,
+    ensures
+        0 <= map_j1(size, j1) < size,
+{
+    let x = (j1 * j1) / 0x1_0000_0000;
+    assert(j1 * j1 <= 0xFFFF_FFFF * 0xFFFF_FFFF) by (nonlinear_arith) requires 0 <= j1 <= 0xFFFF_FFFF;
+    assert(0 <= x <= 0xFFFF_FFFF);
+    let w = size * x;
+    assert(0 <= w && w <= size * 0xFFFF_FFFF) by (nonlinear_arith) requires w == size * x, 0 <= x <= 0xFFFF_FFFF, size >= 1;
+    let y = w / 0x1_0000_0000;
+    assert(0 <= y < size);
+}
+
+pub proof fn lemma_mod_wrap(s: int, q: int)
+    requires
+        q > 0,
+        0 <= s < 2 * q,
+    ensures
+        s % q == (if s < q { s } else { s - q }),
+{
+    if s < q {
+        vstd::arithmetic::div_mod::lemma_small_mod(s as nat, q as nat);
+    } else {
+        vstd::arithmetic::div_mod::lemma_small_mod((s - q) as nat, q as nat);
+        vstd::arithmetic::div_mod::lemma_mod_sub_multiples_vanish(s, q);
+    }
+}
+
+pub proof fn lemma_ref_index_safe(pass: nat, slice: nat, index: nat, seg: nat, j1: nat)
+    requires
+        seg >= 2,
+        slice < 4,
+        index < seg,
+        pass == 0 && slice == 0 ==> index >= 2,
+        j1 < 0x1_0000_0000,
+    ensures
+        ref_area_size(pass, slice, index, seg, true) >= 1,
+        ref_safe(pass, slice, index, seg, ref_index_spec(pass, slice, index, seg, true, j1)),
+{
+    lemma_slice_seg(slice as int, seg as int);
+    let size = ref_area_size(pass, slice, index, seg, true);
+    lemma_map_j1_range(size, j1);
+    let zz = map_j1(size, j1);
+    let st = ref_start(pass, slice, seg);
+    lemma_mod_wrap(st + zz, (4 * seg) as int);
+}
+
 pub proof fn lemma_shr32(v: u64)
     ensures
         (v >> 32) == v / 0x1_0000_0000,
